@@ -56,6 +56,8 @@ def main():
         prefix, tag, args = "mutout8", "u", args[1:]
     elif args and args[0] == "--round9":
         prefix, tag, args = "mutout9", "v", args[1:]
+    elif args and args[0] == "--round10":
+        prefix, tag, args = "mutout10", "w", args[1:]
     for pid in args:
         base = "/tmp/%s_%s" % (prefix, pid)
         if not os.path.isdir(base):
